@@ -264,9 +264,11 @@ def sib9(ctx, pid):
         a, b = st.ret[1]
         lo, hi = eng.len_of(enc, st.facts)
         if b == C(None) and a == node:
-            rows["embed"] = (lo, hi)
+            old = rows.get("embed")
+            rows["embed"] = (lo, hi) if old is None else (min(old[0], lo), max(old[1], hi))
         elif b == enc and a[0] == "call" and a[1] in ("ext:eth_hash.auto.keccak", "ext:eth_utils.keccak") and a[2] == (enc,):
-            rows["hash"] = (lo, hi)
+            old = rows.get("hash")
+            rows["hash"] = (lo, hi) if old is None else (min(old[0], lo), max(old[1], hi))
         elif a == C(b"") and b == C(None):
             rows["blank"] = True
         else:
@@ -714,7 +716,7 @@ def ts5(ctx, pid):
 
 
 # ---------------------------------------------------------------------------
-@rule("ROUTE1", ["C01"])
+@rule("ROUTE1", ["C01", "C02"])
 def route1(ctx, pid):
     """set(k, b'') takes the delete path; dict syntax / exists are the method semantics (SIB1);
     a value slot is returned only when the key is fully consumed (ABS3)."""
